@@ -52,7 +52,11 @@ func (h *NTLMAuth) Authenticate(message *auth.NtlmRequest) (*auth.NtlmResponse, 
 	c := h.getContext(message.Session)
 	err := c.Authenticate(message.NtlmMessage, r)
 
-	if err != nil || r.Authenticated {
+	// a context is good for one negotiate / authenticate exchange. It is only
+	// kept while the client has to answer the challenge that was just issued:
+	// the ntlm session caches the keys of the first user it verified, so a
+	// failed attempt must not be followed by another one on the same context
+	if err != nil || r.Authenticated || r.NtlmMessage == "" {
 		h.removeContext(message.Session)
 	}
 
